@@ -2,32 +2,32 @@
 HOOK_COMMITS = []
 META = {
     "C13": {
-        "text": "Bounded model checking of the real snapshot writer and reader: shapes enumerated, and — for the framing — every encoded document's byte length a symbolic integer up to 1 MiB, so the solver decides whether some payload size makes SaveSnapshot succeed while LoadFromSnapshot fails (the 16-bit length prefix), and whether GetQueue can index out of range. A concurrent harness lets the log grow (local write or the join ending a replication) at any visible step of SaveSnapshot.",
+        "text": "Bounded model checking of the real snapshot writer and reader: shapes enumerated, and — for the framing — every encoded document's byte length a symbolic integer up to 1 MiB, so the solver decides whether some payload size makes SaveSnapshot succeed while LoadFromSnapshot fails (the 16-bit length prefix), and whether GetQueue can index out of range. A concurrent harness lets the log grow (local write or the join ending a replication) at any visible step of SaveSnapshot. Two-writer shapes have concurrent chains of any lengths nb + na = T (heads with equal or different clock times), optionally merged; a pending-queue harness saves while a replication is stuck and loads with the pending block unavailable.",
         "design_ref": "DESIGN.md §2 C13",
         "note": "Trusted: gosym incl. its rope-bytes model (symbolic segment lengths, alignment queries), in-memory Unixfs. Bounds: T<=3 entries (shapes) / 2 (sizes), lengths in [2, 2^20].",
     },
     "C18": {
-        "text": "Bounded model checking of shutdown on the real code: the moment of Close is a path decision over every visible operation of a write, a replication or a load; the interpreter owns all goroutines started by the store, so 'no background activity left' and 'later operations return' are decided from the thread table at quiescence, not from time-outs. Drop/instance Close run on a real orbitDB instance over a disk model. At instance level the whole orbitDB instance (or one store) is closed at any visible step of a cross-instance replication or write, optionally after the context it was created with was cancelled; and a store is closed while a Load is stuck on an unavailable block.",
+        "text": "Bounded model checking of shutdown on the real code: the moment of Close is a path decision over every visible operation of a write, a replication or a load; the interpreter owns all goroutines started by the store, so 'no background activity left' and 'later operations return' are decided from the thread table at quiescence, not from time-outs. Drop/instance Close run on a real orbitDB instance over a disk model. At instance level the whole orbitDB instance (or one store) is closed at any visible step of a cross-instance replication or write, optionally after the context it was created with was cancelled; and a store is closed while a Load is stuck on an unavailable block. Drop is also checked with the sibling database opened under the SAME manifest root with another path.",
         "design_ref": "DESIGN.md §2 C18",
         "note": "Trusted: gosym thread model, stub bus/pubsub contracts (stated). Bounds: one Close moment per path, <= 2 repeats, one later operation; 2 databases for Drop.",
     },
     "C14": {
-        "text": "Bounded model checking of the real address pipeline with the database name a symbolic byte string: 2-safety (two peers, same inputs, equal addresses), injectivity, self-description (Parse(String()) and manifest at the root), reopen on another peer (type and write list), overwrite / local-only refusal, and names embedding another database's root.",
+        "text": "Bounded model checking of the real address pipeline with the database name a symbolic byte string: 2-safety (two peers, same inputs, equal addresses), injectivity, self-description (Parse(String()) and manifest at the root), reopen on another peer (type and write list), overwrite / local-only refusal, and names embedding another database's root. The address package's Parse / String / IsValid round trip runs on symbolic strings of up to 5 bytes (percent escapes, slashes), and the root package's helper constructors are covered by VerifC14Helpers.",
         "design_ref": "DESIGN.md §2 C14",
         "note": "Trusted: perfect hashing, idealised CBOR driven by the registered atlases, disk model. Bounds: names <= 2 bytes quick / 4 thorough (injectivity 1 / 2), 3 store types, <= 3 writers.",
     },
     "C02": {
-        "text": "Bounded model checking of a two-replica closed system executing the real write, announce, exchange-heads, Sync, replicator, Join and Load code: every fault plan of lost announcements and one restart within STEPS steps is explored (payloads symbolic), then the heal phase runs and both logs are compared. A second, instance-level harness runs 2-3 REAL orbitDB instances (newOrbitDB, Create/Open, monitorDirectChannel, handleEventExchangeHeads, store listeners) over a simulated network with link cuts, lost / duplicated announcements, restarts over the same directory and restarts that lose an in-memory cache.",
+        "text": "Bounded model checking of a two-replica closed system executing the real write, announce, exchange-heads, Sync, replicator, Join and Load code: every fault plan of lost announcements and one restart within STEPS steps is explored (payloads symbolic), then the heal phase runs and both logs are compared. A second, instance-level harness runs 2-3 REAL orbitDB instances (newOrbitDB, Create/Open, monitorDirectChannel, handleEventExchangeHeads, store listeners) over a simulated network with link cuts, lost / duplicated announcements, restarts over the same directory and restarts that lose an in-memory cache. A third harness lets a peer OPEN the database while a replica holding acknowledged writes is connected: every schedule of the opening thread with one preemption (found the open-vs-head-exchange race fixed in 062ac51); store-level close / reopen on a live instance is a step of the system harness.",
         "design_ref": "DESIGN.md §2 C02",
         "note": "Trusted: gosym thread model, stub network (announcement delivery decided by the harness), perfect hashing. Bounds: 2 replicas, STEPS<=4 quick / 6 thorough, one restart kind.",
     },
     "C03": {
-        "text": "Bounded model checking under a Dolev-Yao attacker: every combination of forged author fields is built with the real ipfs-log and delivered by both routes to a replica running the real Sync/replicator/Join/Verify/CanAppend code; plus symbolic-list unit checks of all three controllers. The class 'writer's id named in an entry signed by someone else' (formerly a known finding) was repaired in /repo and is verified like the rest. An instance-level harness checks that each database of one orbitDB instance enforces its OWN write list (ipfs / manifest-less simple controllers resolved by createStore, non-writer entries by sync, direct channel and topic).",
+        "text": "Bounded model checking under a Dolev-Yao attacker: every combination of forged author fields is built with the real ipfs-log and delivered by both routes to a replica running the real Sync/replicator/Join/Verify/CanAppend code; plus symbolic-list unit checks of all three controllers. The class 'writer's id named in an entry signed by someone else' (formerly a known finding) was repaired in /repo and is verified like the rest. An instance-level harness checks that each database of one orbitDB instance enforces its OWN write list (ipfs / manifest-less simple controllers resolved by createStore, non-writer entries by sync, direct channel and topic). The forging space includes the writer's id signature COPIED under the attacker's key, and every controller decision is also taken after the controller has verified a genuine entry of the impersonated writer (process-wide caches).",
         "design_ref": "DESIGN.md §2 C03, §4",
         "note": "Trusted: perfect symbolic cryptography, gosym. The former known finding C03-id-not-bound-to-key was repaired in /repo (0e0edba): forged author fields incl. re-signed id signatures are now part of the verified space, nothing is carved out.",
     },
     "C04": {
-        "text": "Bounded model checking of the hash check in Sync, the replicator's fetch-by-hash and Join's log-id / signature verification: every single-field mutation (new clock time fully symbolic), with or without re-addressing, by both routes; the tampered entry must be absent at quiescence, held entries intact, and the original still acceptable. A further harness links a valid entry to a chain of entries validly written for another database and checks, after replication, after restart + load (whole ancestry fetched as one log) and on a relayed replica, that nothing with a foreign log id is listed, a head, or served.",
+        "text": "Bounded model checking of the hash check in Sync, the replicator's fetch-by-hash and Join's log-id / signature verification: every single-field mutation (new clock time fully symbolic), with or without re-addressing, by both routes; the tampered entry must be absent at quiescence, held entries intact, and the original still acceptable. A further harness links a valid entry to a chain of entries validly written for another database and checks, after replication, after restart + load (whole ancestry fetched as one log) and on a relayed replica, that nothing with a foreign log id is listed, a head, or served. The codec-alias mutation is also delivered as an ancestor link (found the defect fixed in d77d3e0); the foreign-chain harness has an own chain of 1..H entries and a trimmed Load(n) on the live store or after restart.",
         "design_ref": "DESIGN.md §2 C04",
         "note": "Trusted: perfect hashing/signatures, gosym. Bounds: one tampered entry, 9 field selectors x re-address x route.",
     },
@@ -42,7 +42,7 @@ META = {
         "note": "Trusted: gosym thread model, stub block store with fault injection at fetches. Known finding C11-partial-ancestry is reported (KNOWN-FINDING line) and carved out.",
     },
     "C09": {
-        "text": "Bounded model checking of the real listeners and main loops of two stores sharing one bus: every action sequence on one database (symbolic payloads) is executed on the real InitBaseStore/storeListener/replicator/main-loop code and the other database's topic, log, status and the addresses on all emitted events are checked at quiescence. At instance level two real orbitDB instances hold the same two databases; head exchanges for both travel back to back over one direct channel and replicate concurrently on the shared bus; contents, status, events and every wire message are checked per database.",
+        "text": "Bounded model checking of the real listeners and main loops of two stores sharing one bus: every action sequence on one database (symbolic payloads) is executed on the real InitBaseStore/storeListener/replicator/main-loop code and the other database's topic, log, status and the addresses on all emitted events are checked at quiescence. At instance level two real orbitDB instances hold the same two databases; head exchanges for both travel back to back over one direct channel and replicate concurrently on the shared bus; contents, status, events and every wire message are checked per database. A valid entry of database B handed to A (manually or on A's topic / direct channel) is part of the action alphabet.",
         "design_ref": "DESIGN.md §2 C09",
         "note": "Trusted: gosym, stub bus/pubsub/direct channel. Bounds: 2 databases, STEPS<=3 quick / 4 thorough.",
     },
@@ -52,7 +52,7 @@ META = {
         "note": "Trusted: gosym, z3, the effect-log disk model (each effect durable on return). Bounds: STEPS<=3 quick / 4 thorough, one local and one remote writer.",
     },
     "C16": {
-        "text": "Bounded model checking of the state-before-event clause on the real write and replication paths: emissions are intercepted synchronously and the real log/index/cache are queried at that instant, over every bounded history. The legacy channel emitter's two buffering goroutines are executed under every thread schedule within the preemption bound and the received sequence is compared with the emitted one. The real eventbus is outside (stated). Every emitted replicated event is also retained and read at the end of the history (slow subscriber): it must still announce its own batch, and each merged remote entry is announced exactly once.",
+        "text": "Bounded model checking of the state-before-event clause on the real write and replication paths: emissions are intercepted synchronously and the real log/index/cache are queried at that instant, over every bounded history. The legacy channel emitter's two buffering goroutines are executed under every thread schedule within the preemption bound and the received sequence is compared with the emitted one. The real eventbus is outside (stated). Every emitted replicated event is also retained and read at the end of the history (slow subscriber): it must still announce its own batch, and each merged remote entry is announced exactly once. Further harnesses: a replication batch that only adds history below the heads still announces (Backfill); several legacy subscribers of which one is cancelled while the emitter is blocked on it (found the emitter deadlock fixed in c9d6a41).",
         "design_ref": "DESIGN.md §2 C16",
         "note": "Clause (a) and clause (c) (legacy emitter: N=18 events, every schedule with <= 2 preemptions; stalled subscriber with 200 events). Clause (b), the real libp2p eventbus, is outside. Bounds as stated.",
     },
@@ -67,22 +67,22 @@ META = {
         "note": "Trusted: gosym, z3, block-store/cache stubs. Bounds: logs of T<=3 quick / 5 thorough entries, one or two heads.",
     },
     "C17": {
-        "text": "Bounded model checking over thread schedules of the real write path: the interpreter owns scheduling, every preemption point at a visible operation is a decision of the path (preemption bound P), payloads are symbolic; each schedule is executed on the real AddOperation/Append/Load code and the oracle (distinct entries, all listed, all recovered after restart) is checked on it.",
+        "text": "Bounded model checking over thread schedules of the real write path: the interpreter owns scheduling, every preemption point at a visible operation is a decision of the path (preemption bound P), payloads are symbolic; each schedule is executed on the real AddOperation/Append/Load code and the oracle (distinct entries, all listed, all recovered after restart) is checked on it. A second harness races W writers against the END of a replication (replicationLoadComplete persists heads too) under every schedule with P preemptions, then restarts.",
         "design_ref": "DESIGN.md §2 C17",
         "note": "Trusted: gosym's thread model (sequentially consistent at visible-operation granularity), stub cache/block store. Bounds: W=2,P=1 quick / W=3,P=2 thorough. The deciding step is exhaustive enumeration of schedules within the bound, each closed by solver verdicts over the symbolic payloads.",
     },
     "C20": {
-        "text": "Bounded model checking of the real adapter code: peersDiff over all membership-snapshot sequences with symbolic peer ids, the self-filter and ordering of WatchMessages/monitorTopic over scripted messages with symbolic bodies, channel-name symmetry/injectivity over symbolic ids, and the varint frame round trip plus arbitrary raw frames. The pubsubraw adapter runs over scripted stand-ins for libp2p-pubsub's concrete Topic / Subscription / TopicEventHandler (methods replaced by name under the interpreter).",
+        "text": "Bounded model checking of the real adapter code: peersDiff over all membership-snapshot sequences with symbolic peer ids, the self-filter and ordering of WatchMessages/monitorTopic over scripted messages with symbolic bodies, channel-name symmetry/injectivity over symbolic ids, and the varint frame round trip plus arbitrary raw frames. The pubsubraw adapter runs over scripted stand-ins for libp2p-pubsub's concrete Topic / Subscription / TopicEventHandler (methods replaced by name under the interpreter). Further harnesses: WatchPeers / two watchers of one topic with one cancelled, the direct-channel factory, reconnect after the Connect context ended, and the pubsubraw adapter over scripted libp2p stand-ins.",
         "design_ref": "DESIGN.md §2 C20",
         "note": "Trusted: gosym, z3, scripted coreiface PubSub stub. Bounds: 3 peers x 3/4 snapshots, 3/5 messages, ids <= 2/3 bytes, payloads <= 3/6 bytes, raw frames <= 11/12 bytes.",
     },
     "C12": {
-        "text": "Bounded model checking of the real message-handling code with the input fully symbolic: raw stream frames as arbitrary byte strings (every varint / declared length), decoded head messages with every field independently nil/empty/present. Any feasible panic path is a counterexample the solver instantiates. At instance level the real monitorDirectChannel / handleEventExchangeHeads / topic listeners receive undecodable, ill-typed, mis-addressed and malformed-head payloads, alone or in one burst with honest traffic; allocations sized by a frame's length prefix are solver-checked against the frame limit.",
+        "text": "Bounded model checking of the real message-handling code with the input fully symbolic: raw stream frames as arbitrary byte strings (every varint / declared length), decoded head messages with every field independently nil/empty/present. Any feasible panic path is a counterexample the solver instantiates. At instance level the real monitorDirectChannel / handleEventExchangeHeads / topic listeners receive undecodable, ill-typed, mis-addressed and malformed-head payloads, alone or in one burst with honest traffic; allocations sized by a frame's length prefix are solver-checked against the frame limit. Malformed heads are also announced under a valid entry's own address with identity, key and signature copied from it (so memoised verdicts cannot poison the valid entry).",
         "design_ref": "DESIGN.md §2 C12",
         "note": "Trusted: gosym, z3; encoding/json is over-approximated by 'error or any value of the message type' for head messages. Bounds: frames <= 11/12 bytes, <= 2 heads.",
     },
     "C06": {
-        "text": "Bounded model checking of the real kvIndex.UpdateIndex / All / Get (through a store built by the real InitBaseStore): for every listing of N put/delete operations with symbolic keys and values and every earlier index state, the solver shows All() and Get(k) equal the last-writer-wins replay.",
+        "text": "Bounded model checking of the real kvIndex.UpdateIndex / All / Get (through a store built by the real InitBaseStore): for every listing of N put/delete operations with symbolic keys and values and every earlier index state, the solver shows All() and Get(k) equal the last-writer-wins replay. A further harness gives two causally ordered puts SYMBOLIC clock values in [1, 2^40] (store-level sort), and a read-during-write harness checks a reader between append and index update.",
         "design_ref": "DESIGN.md §2 C06",
         "note": "Trusted: gosym SSA semantics (native replay of sampled paths per run), z3, idealised JSON codec. Bounds: N<=3 quick / 4 thorough, 1-byte keys, 0..1-byte values.",
     },
